@@ -231,6 +231,7 @@ func (g *shapeGen) override(path string, t types.Type, a string, depth int) []al
 // genShapes enumerates the input shapes of fn under its contract.
 func (e *Exec) genShapes(fn *ssa.Function, con *Contract) []*ShapeCase {
 	g := &shapeGen{e: e, over: map[string][]string{}, used: map[string]bool{}}
+	e.curGen = g
 	for _, cl := range con.Clauses {
 		if cl.Kind == "option" && strings.HasPrefix(cl.Raw, "shape-zero ") {
 			g.zeroPfx = append(g.zeroPfx, strings.Fields(cl.Raw)[1:]...)
@@ -244,6 +245,9 @@ func (e *Exec) genShapes(fn *ssa.Function, con *Contract) []*ShapeCase {
 		path := strings.TrimSpace(sc.Raw[:eq])
 		if strings.HasPrefix(path, "result") {
 			continue // result shapes: used at call sites, proved in verify.go
+		}
+		if strings.HasPrefix(path, "prop.") || path == "prop" {
+			g.used[path] = true // consumed by propmap()
 		}
 		for _, a := range strings.Split(sc.Raw[eq+1:], "|") {
 			g.over[path] = append(g.over[path], strings.TrimSpace(a))
